@@ -103,6 +103,8 @@ struct Case {
     engine: String, // mem | disk
     stmt: String,
     setup: Vec<String>,
+    /// "err": the statement fails by itself (a real evaluation error) and must return Err
+    expect: String,
 }
 
 fn gen_val(r: &mut Rng) -> String {
@@ -132,6 +134,9 @@ fn gen_case(r: &mut Rng, i: usize) -> Case {
     // only), 1/5 disk with ONE row-set per table (deterministic: full comparison)
     let engine = if i % 5 >= 3 { "disk" } else { "mem" };
     let single = i % 5 == 3;
+    // every sixth case: a scan of 20+ one-row chunks, so that item indices beyond the capacity
+    // (16) of the operator output channel exist (faults at k = 15..18 hit a full / just drained channel)
+    let long = engine == "mem" && i % 6 == 2;
     NULLS.store(engine == "mem" || single, std::sync::atomic::Ordering::Relaxed);
     // (on disk a primary key makes the planner pick merge join / sort aggregation over scans
     // whose row-set order is not reproducible: keep disk tables key-less)
@@ -150,12 +155,12 @@ fn gen_case(r: &mut Rng, i: usize) -> Case {
     } else {
         "create table u(x int, y int)".to_string()
     };
-    let nt = if single { 1 } else { r.range(1, 4) };
+    let nt = if single { 1 } else if long { r.range(20, 22) } else { r.range(1, 4) };
     let mut next_key = 0;
     for _ in 0..nt {
         if pk {
             // distinct non-null keys
-            let n = r.range(1, 4);
+            let n = if long { 1 } else { r.range(1, 4) };
             let rows = (0..n)
                 .map(|_| {
                     next_key += 1;
@@ -165,7 +170,7 @@ fn gen_case(r: &mut Rng, i: usize) -> Case {
                 .join(",");
             setup.push(format!("insert into t values {rows}"));
         } else {
-            setup.push(format!("insert into t values {}", if single { gen_rows(r, 3, 7) } else { gen_rows(r, 1, 4) }));
+            setup.push(format!("insert into t values {}", if single { gen_rows(r, 3, 7) } else if long { gen_rows(r, 1, 1) } else { gen_rows(r, 1, 4) }));
         }
     }
     let mut next_ukey = 0;
@@ -210,7 +215,7 @@ fn gen_case(r: &mut Rng, i: usize) -> Case {
         format!("select a from t where b {cmp} {c} limit {lim}"),
         format!("select x, sum(b) from t join u on a = x where b {cmp} {c} group by x order by x limit {}", lim + 1),
         format!("select a from t where a in (select x from u)"),
-        format!("select a, row_number() over (order by b) from t"),
+        format!("select a, row_number() over (order by a) from t"),
         format!("insert into u select a, b from t where a {cmp} {c}"),
         format!("insert into u select a, b from t"),
         format!("insert into u values {}", gen_rows(r, 1, 3)),
@@ -225,17 +230,17 @@ fn gen_case(r: &mut Rng, i: usize) -> Case {
         // defined, so no bare LIMIT)
         let pickable: Vec<&String> = templates
             .iter()
-            .filter(|t| !t.contains(" limit ") || t.contains("order by"))
+            .filter(|t| single || ((!t.contains(" limit ") || t.contains("order by")) && !t.contains(" over (")))
             .collect();
         (*r.pick(&pickable)).clone()
     } else {
         r.pick(&templates).clone()
     };
-    Case { engine: engine.into(), stmt, setup }
+    Case { engine: engine.into(), stmt, setup, expect: String::new() }
 }
 
 fn case_line(c: &Case) -> String {
-    format!("{}\t{}\t{}", c.engine, c.stmt, c.setup.join(";"))
+    format!("{}\t{}\t{}\t{}", c.engine, c.stmt, c.setup.join(";"), c.expect)
 }
 
 fn parse_case(l: &str) -> Case {
@@ -244,6 +249,7 @@ fn parse_case(l: &str) -> Case {
         engine: f[0].into(),
         stmt: f[1].into(),
         setup: f[2].split(';').map(|s| s.to_string()).collect(),
+        expect: f.get(3).map(|s| s.trim().to_string()).unwrap_or_default(),
     }
 }
 
@@ -495,7 +501,7 @@ fn run_case(ctx: &mut Ctx, cid: usize, case: &Case, thorough: bool, out: &mut Ve
     if !names_ok || nofault_class != "ok" || nf.panics > 0 {
         // statements that fail (or whose operator panics) by themselves: only the model-free
         // oracle applies — a statement in which an operator task panicked must not return Ok.
-        rec(json!({"type": "nofault-only", "class": nofault_class, "panics": nf.panics,
+        rec(json!({"type": "nofault-only", "class": nofault_class, "panics": nf.panics, "expect": case.expect,
             "names_ok": names_ok,
             "spawned": spawned.iter().map(|s| s.1.clone()).collect::<Vec<_>>(),
             "not_ended": spawned.iter().filter(|s| !nf.trace.ended.contains(&s.0)).map(|s| s.1.clone()).collect::<Vec<_>>(),
@@ -528,7 +534,8 @@ fn run_case(ctx: &mut Ctx, cid: usize, case: &Case, thorough: bool, out: &mut Ve
     let mut faults: Vec<Fault> = vec![];
     for n in &nodes {
         let len = n.outs.len() + if n.err { 1 } else { 0 };
-        let mut ks: Vec<usize> = if thorough { (0..=len).collect() } else { vec![0, 1, 2, len.saturating_sub(1), len] };
+        // 15..18: around the capacity of the operator output channel (16)
+        let mut ks: Vec<usize> = if thorough { (0..=len).collect() } else { vec![0, 1, 2, 15, 16, 17, 18, len.saturating_sub(1), len] };
         ks.sort();
         ks.dedup();
         for k in ks {
